@@ -72,6 +72,11 @@ namespace GeographicLib {
   }
 
   int Utility::day(int y, int m, int d, bool check) {
+    // Reject wild values before they overflow the int arithmetic in day
+    if (check &&
+        !(y >= 1 && y <= 99999 && m >= 1 && m <= 12 && d >= 1 && d <= 31))
+      throw GeographicErr("Invalid date " +
+                          str(y) + "-" + str(m) + "-" + str(d));
     int s = day(y, m, d);
     if (!check)
       return s;
